@@ -316,7 +316,8 @@ def dist(
       - J. Richter-Gebert: Perspectives on Projective Geometry, Section 18.8
 
     """
-    if p == q:
+    if p.tensor_shape == q.tensor_shape and p == q:
+        # objects of different kinds (e.g. a line and a point) can have proportional coordinate vectors
         return np.zeros(p.shape[: p.free_indices])
 
     if isinstance(p, PointTensor) and isinstance(q, PointTensor):
